@@ -5,7 +5,7 @@
    Ingredients: C04's UTF-8 facts (MaskProofs: utf8_index, char_index_split; MaskFrontends: md_advance_spec),
    the tiling theorem of PlainEnglish::parse (LexerProofs.plain_tiling) for every Text chunk, and the fact that
    VecExt::remove_indices returns a sub-sequence for EVERY queue (the wikilink passes hand it unsorted queues). *)
-Require Import Base Overlap Mask MaskProofs MaskFrontends.
+Require Import Base Overlap Mask MaskProofs.
 Require Import OverlapProofs Tables_lexer Lexer Condense ListLemmas TokenInv CondenseInv LexerProofs
   C02Wrappers C02Gapped C02Markdown WordsMaximal.
 From Coq Require Import List Arith Lia.
@@ -112,6 +112,24 @@ Proof.
   destruct ilt; cbn [negb]; [eexists; split; [reflexivity|exact Hunl]|exact Hlexed].
 Qed.
 
+(* the cursor advance (the two facts of C04's MaskFrontends.v, re-proved here so that this file depends on MaskProofs only) *)
+Lemma md_advance_spec bs tb tc rs tb' tc' : tc = char_index bs tb -> is_boundary bs tb = true ->
+  md_advance bs tb tc rs = Ok (tb', tc') ->
+  tb' = Nat.max tb rs /\ tc' = char_index bs tb' /\ is_boundary bs tb' = true.
+Proof.
+  intros Hc Hb. unfold md_advance. destruct (Nat.ltb_spec tb rs).
+  - rewrite str_slice_ok. destruct ((tb <=? rs) && is_boundary bs tb && is_boundary bs rs) eqn:E; cbn [bind]; [|discriminate].
+    intros H'. inversion H'; subst. apply andb_true_iff in E as [_ E]. repeat split; try lia; [|assumption].
+    symmetry. apply char_index_split. lia.
+  - intros H'. inversion H'; subst. repeat split; try lia; assumption.
+Qed.
+Lemma md_advance_ok bs tb tc rs : is_boundary bs tb = true -> is_boundary bs rs = true ->
+  exists r, md_advance bs tb tc rs = Ok r.
+Proof.
+  intros Hb Hr. unfold md_advance. destruct (Nat.ltb_spec tb rs); [|eauto].
+  rewrite str_slice_ok, Hb, Hr. destruct (Nat.leb_spec tb rs); [|lia]. cbn. eauto.
+Qed.
+
 (* ---------- the loop ---------- *)
 Lemma tiling_last a b xs : Tiling a b xs -> xs <> [] -> exists t pre, rev xs = t :: pre /\ tend t = b.
 Proof.
@@ -120,6 +138,12 @@ Proof.
   - inversion H3; subst. exists t, []. split; reflexivity.
   - destruct (IH ltac:(discriminate)) as (l & pre & E & Hl). cbn [rev] in *. rewrite E. cbn [app].
     exists l, (pre ++ [t]). split; [reflexivity|exact Hl].
+Qed.
+
+Lemma tiling_end_unique xs : forall a b c, Tiling a b xs -> Tiling a c xs -> b = c.
+Proof.
+  induction xs as [|t ts IH]; intros a b c H1 H2; inversion H1; inversion H2; subst; [reflexivity|].
+  eapply IH; eassumption.
 Qed.
 
 Lemma cu_top_idem cu le : cu_top (cu_top cu le) le = cu_top cu le.
@@ -135,134 +159,148 @@ Section Loop.
   Lemma boundary_char_le b : is_boundary bs b = true -> char_index bs b <= length src.
   Proof. intros Hb. destruct (utf8_index src b Hv Hb) as (k & Hk & _ & Hik & _). fold bs in Hik. lia. Qed.
 
-  (* what one event that the guard does not skip pushes, under the local clauses of the contract *)
-  Definition StepSpec (stack : list md_tag) (tc' : nat) (e : mevent) (lastend : option nat) (out : list token) : Prop :=
-    last_end out lastend = (match ext ilt bs stack tc' e with Some x => Some x | None => lastend end) /\
-    ((out = [] /\ ext ilt bs stack tc' e = None) \/
-     (exists k, out = [mktok (span_new_with_len tc' 0) k] /\ ext ilt bs stack tc' e = Some tc' /\
-                match k with KNewline _ | KParagraphBreak => True | _ => False end) \/
-     (exists n, Tiling tc' (tc' + n) out /\ ext ilt bs stack tc' e = Some (tc' + n) /\ 1 <= n /\
-                tc' + n <= length src /\ is_leaf (me_ev e) = true)).
+  (* what one event that the guard does not skip pushes: nothing, one zero-width break at the cursor, or a tiling of
+     [tc', tc' + n) inside the text; and what tokens.last() is afterwards *)
+  Definition StepSpec (tc' : nat) (e : mevent) (lastend : option nat) (out : list token) : Prop :=
+    (out = [] /\ last_end out lastend = lastend) \/
+    (exists k, out = [mktok (span_new_with_len tc' 0) k] /\ last_end out lastend = Some tc' /\
+               match k with KNewline _ | KParagraphBreak => True | _ => False end) \/
+    (exists n, Tiling tc' (tc' + n) out /\ last_end out lastend = Some (tc' + n) /\ 1 <= n /\
+               tc' + n <= length src /\ is_leaf (me_ev e) = true).
 
-  Lemma step_spec stack tb' tc' e lastend :
-    is_boundary bs tb' = true -> tc' = char_index bs tb' -> is_boundary bs (me_rs e) = true ->
-    (match me_ev e with
-     | MText _ => (me_rs e <=? me_re e) && is_boundary bs (me_re e)
-     | _ => true
-     end) = true ->
-    (match claim ilt bs stack e with
-     | Some n => (tb' <=? me_re e) && is_boundary bs (me_re e) && (n <=? count_chars (slice bs tb' (me_re e))) && (1 <=? n)
-     | None => true
-     end) = true ->
-    exists out, mk_step u ilt src bs stack tc' e = Ok out /\ StepSpec stack tc' e lastend out.
+  Lemma last_end_tiling a b out lastend : Tiling a b out -> a < b -> last_end out lastend = Some b.
   Proof.
-    intros Hb Hc Hrs HT HC.
-    (* a covering single token / tiling of n claimed characters *)
-    assert (Fit : forall n, claim ilt bs stack e = Some n -> 1 <= n /\ tc' + n <= length src /\
-                            tc' + n <= char_index bs (me_re e)).
-    { intros n Hn. rewrite Hn in HC. repeat (apply andb_true_iff in HC as [HC ?]).
-      apply Nat.leb_le in HC. repeat match goal with H : (_ <=? _) = true |- _ => apply Nat.leb_le in H end.
-      match goal with H : is_boundary bs (me_re e) = true |- _ => pose proof (boundary_char_le _ H) as Hre end.
-      pose proof (char_index_split bs tb' (me_re e) HC) as Hs. lia. }
-    unfold StepSpec, mk_step, ext, claim, last_end in *. destruct (me_ev e) as [t| | | | |n|n|n|] eqn:Ev; cbn [is_leaf].
-    - destruct t; (eexists; split; [reflexivity|]); cbn [rev app];
-        try (split; [reflexivity|left; split; reflexivity]).
-      split; [unfold tend, span_new_with_len; cbn; f_equal; lia|]. right; left. eexists. repeat split.
-    - eexists; split; [reflexivity|]. cbn [rev app].
-      split; [unfold tend, span_new_with_len; cbn; f_equal; lia|]. right; left. eexists. repeat split.
-    - eexists; split; [reflexivity|]. split; [reflexivity|left; split; reflexivity].
-    - destruct (Fit 1 eq_refl) as (F1 & F2 & _). eexists; split; [reflexivity|]. cbn [rev app].
-      split; [reflexivity|]. right; right. exists 1. repeat split; try lia. unfold span_new_with_len. apply tiling_single. lia.
-    - destruct (Fit 1 eq_refl) as (F1 & F2 & _). eexists; split; [reflexivity|]. cbn [rev app].
-      split; [reflexivity|]. right; right. exists 1. repeat split; try lia. unfold span_new_with_len. apply tiling_single. lia.
-    - destruct (Nat.eqb_spec n 0) as [Hz|Hnz].
-      + eexists; split; [reflexivity|]. split; [reflexivity|left; split; reflexivity].
-      + destruct (Fit n eq_refl) as (F1 & F2 & _). eexists; split; [reflexivity|]. cbn [rev app].
-        split; [reflexivity|]. right; right. exists n. repeat split; try lia.
-        unfold unl_tok, span_new_with_len. apply tiling_single. lia.
+    intros Ht Hab. assert (Hne : out <> []) by (intros ->; inversion Ht; lia).
+    destruct (tiling_last _ _ _ Ht Hne) as (l & pre & El & Hl). unfold last_end. rewrite El, Hl. reflexivity.
+  Qed.
+
+  (* tc' = the char offset of the event's own range start (the event is not behind the cursor) *)
+  Lemma step_spec stack tc' e lastend :
+    tc' = char_index bs (me_rs e) -> ev_ok bs e = true ->
+    exists out, mk_step u ilt src bs stack tc' e = Ok out /\ StepSpec tc' e lastend out.
+  Proof.
+    intros Hc HK. unfold ev_ok in HK. apply andb_true_iff in HK as [Hrs HK].
+    assert (Single : forall n k, is_leaf (me_ev e) = true -> 1 <= n -> tc' + n <= length src ->
+                                 StepSpec tc' e lastend [mktok (span_new_with_len tc' n) k]).
+    { intros n k Hl Hn Hfit. right; right. exists n.
+      assert (Ht : Tiling tc' (tc' + n) [mktok (span_new_with_len tc' n) k]) by (unfold span_new_with_len; apply tiling_single; lia).
+      split; [exact Ht|]. split; [eapply last_end_tiling; [exact Ht|lia]|]. auto. }
+    (* the leaf clauses: the range is well-formed and holds `cnt` characters from tc' on *)
+    assert (Leaf : is_leaf (me_ev e) = true ->
+              me_rs e <= me_re e /\ is_boundary bs (me_re e) = true /\
+              tc' + count_chars (slice bs (me_rs e) (me_re e)) <= length src).
+    { intros Hl. rewrite Hl in HK. apply andb_true_iff in HK as [HK _]. apply andb_true_iff in HK as [H1 H2].
+      apply Nat.leb_le in H1. split; [exact H1|]. split; [exact H2|].
+      pose proof (boundary_char_le _ H2) as Hre. pose proof (char_index_split bs _ _ H1) as Hs. lia. }
+    unfold mk_step. destruct (me_ev e) as [t| | | | |n|n|n|] eqn:Ev; cbn [is_leaf] in *.
+    - destruct t; (eexists; split; [reflexivity|]); try (left; split; reflexivity).
+      right; left. eexists. split; [reflexivity|]. split; [|exact I].
+      unfold last_end, tend, span_new_with_len; cbn. f_equal; lia.
+    - eexists; split; [reflexivity|]. right; left. eexists. split; [reflexivity|]. split; [|exact I].
+      unfold last_end, tend, span_new_with_len; cbn. f_equal; lia.
+    - eexists; split; [reflexivity|]. left; split; reflexivity.
+    - destruct (Leaf eq_refl) as (L1 & L2 & L3). apply andb_true_iff in HK as [_ HK]. apply Nat.leb_le in HK.
+      eexists; split; [reflexivity|]. apply Single; [reflexivity|lia|lia].
+    - destruct (Leaf eq_refl) as (L1 & L2 & L3). apply andb_true_iff in HK as [_ HK]. apply Nat.leb_le in HK.
+      eexists; split; [reflexivity|]. apply Single; [reflexivity|lia|lia].
+    - destruct (Leaf eq_refl) as (L1 & L2 & L3). apply andb_true_iff in HK as [_ HK]. apply Nat.leb_le in HK.
+      destruct (Nat.eqb_spec n 0) as [Hz|Hnz].
+      + eexists; split; [reflexivity|]. left; split; reflexivity.
+      + eexists; split; [reflexivity|]. unfold unl_tok. apply Single; [reflexivity|lia|lia].
     - (* Text *)
-      apply andb_true_iff in HT as [HT1 HT2]. apply Nat.leb_le in HT1.
+      destruct (Leaf eq_refl) as (L1 & L2 & L3).
       assert (Hcl : md_chunk_len bs (me_rs e) (me_re e) n
                     = Ok (Nat.min n (count_chars (slice bs (me_rs e) (me_re e))))).
-      { unfold md_chunk_len. rewrite str_slice_ok, Hrs, HT2.
+      { unfold md_chunk_len. rewrite str_slice_ok, Hrs, L2.
         destruct (Nat.leb_spec (me_rs e) (me_re e)); [|lia]. reflexivity. }
       rewrite Hcl. cbn [bind].
       set (cl := Nat.min n (count_chars (slice bs (me_rs e) (me_re e)))) in *.
       destruct (Nat.eqb_spec cl 0) as [Hz|Hnz].
-      + eexists; split; [reflexivity|]. split; [reflexivity|left; split; reflexivity].
-      + destruct (text_pushes ilt stack) eqn:Hp.
-        * destruct (Fit cl eq_refl) as (F1 & F2 & F3).
-          pose proof (boundary_char_le (me_re e) HT2) as Hre.
-          destruct (mk_text_piece u ilt src stack tc' cl (char_index bs (me_re e)) F1 F3 Hre) as (o & Ho & Hpc).
-          rewrite Ho. eexists; split; [reflexivity|].
-          (* a pushing stack never gives the empty piece *)
-          assert (Ht : Tiling tc' (tc' + cl) o).
-          { unfold mk_text in Ho. unfold text_pushes in Hp.
-            assert (Hlexed : forall o', (do chunk <- slice_chk src tc' (tc' + cl); do ts <- plain_parse u chunk; Ok (map (pushtok tc') ts)) = Ok o' ->
-                                        Tiling tc' (tc' + cl) o').
-            { unfold slice_chk. destruct (Nat.ltb_spec (tc' + cl) tc'); [lia|].
-              destruct (Nat.ltb_spec (length src) (tc' + cl)); [lia|]. cbn [orb bind].
-              set (chunk := firstn (tc' + cl - tc') (skipn tc' src)).
-              assert (Hlc : length chunk = cl) by (unfold chunk; rewrite firstn_length, skipn_length; lia).
-              destruct (plain_tiling u chunk) as [ts [Hpp Htt]]. rewrite Hpp. cbn [bind]. intros o' E; injection E as <-.
-              rewrite Hlc in Htt. pose proof (tiling_push tc' 0 cl ts Htt) as H'.
-              rewrite Nat.add_0_l, (Nat.add_comm cl tc') in H'. exact H'. }
-            assert (Hunl : Tiling tc' (tc' + cl) [unl_tok tc' cl]).
-            { unfold unl_tok, span_new_with_len. apply tiling_single. lia. }
-            destruct stack as [|tag rest]; [apply Hlexed; exact Ho|].
-            destruct tag; cbn [tag_is_prose] in Ho, Hp; try discriminate Hp;
-              try (apply Hlexed; exact Ho); try (injection Ho as <-; exact Hunl).
+      + eexists; split; [reflexivity|]. left; split; reflexivity.
+      + destruct (mk_text_piece u ilt src stack tc' cl (tc' + cl) ltac:(lia) (le_n _) ltac:(unfold cl; lia)) as (o & Ho & Hpc).
+        rewrite Ho. eexists; split; [reflexivity|].
+        destruct Hpc as [->|(b & Ht & Hb')]; [left; split; reflexivity|].
+        destruct o as [|o0 orest] eqn:Eo; [left; split; reflexivity|]. rewrite <- Eo in *.
+        assert (Hne : o <> []) by (rewrite Eo; discriminate).
+        assert (b = tc' + cl) as ->.
+        { (* a piece of mk_text is the whole chunk *)
+          pose proof (tiling_le _ _ _ Ht) as Hle.
+          unfold mk_text in Ho.
+          assert (Hlexed : forall o', (do chunk <- slice_chk src tc' (tc' + cl); do ts <- plain_parse u chunk; Ok (map (pushtok tc') ts)) = Ok o' ->
+                                      Tiling tc' (tc' + cl) o').
+          { unfold slice_chk. destruct (Nat.ltb_spec (tc' + cl) tc'); [lia|].
+            destruct (Nat.ltb_spec (length src) (tc' + cl)); [unfold cl in *; lia|]. cbn [orb bind].
+            set (chunk := firstn (tc' + cl - tc') (skipn tc' src)).
+            assert (Hlc : length chunk = cl) by (unfold chunk; rewrite firstn_length, skipn_length; lia).
+            destruct (plain_tiling u chunk) as [ts [Hpp Htt]]. rewrite Hpp. cbn [bind]. intros o' E; injection E as <-.
+            rewrite Hlc in Htt. pose proof (tiling_push tc' 0 cl ts Htt) as H'.
+            rewrite Nat.add_0_l, (Nat.add_comm cl tc') in H'. exact H'. }
+          assert (Hunl : Tiling tc' (tc' + cl) [unl_tok tc' cl]).
+          { unfold unl_tok, span_new_with_len. apply tiling_single. lia. }
+          assert (Hfull : Tiling tc' (tc' + cl) o).
+          { destruct stack as [|tag rest]; [apply Hlexed; exact Ho|].
+            destruct tag; cbn [tag_is_prose] in Ho;
+              try (apply Hlexed; exact Ho); try (injection Ho as <-; exact Hunl);
+              try (injection Ho as E0; symmetry in E0; contradiction).
             destruct ilt; cbn [negb] in Ho; [injection Ho as <-; exact Hunl|apply Hlexed; exact Ho]. }
-          assert (Hne : o <> []).
-          { intros ->. inversion Ht. lia. }
-          destruct (tiling_last _ _ _ Ht Hne) as (l & pre & El & Hl). rewrite El, Hl.
-          split; [reflexivity|]. right; right. exists cl. repeat split; try assumption.
-        * (* nothing pushed *)
-          assert (Ho : mk_text u ilt src stack tc' cl = Ok []).
-          { unfold mk_text, text_pushes in *. destruct stack as [|tag rest]; [discriminate|].
-            destruct tag; cbn [tag_is_prose] in *; try discriminate Hp; try reflexivity. }
-          rewrite Ho. eexists; split; [reflexivity|]. split; [reflexivity|left; split; reflexivity].
-    - destruct (Fit n eq_refl) as (F1 & F2 & _). eexists; split; [reflexivity|]. cbn [rev app].
-      split; [reflexivity|]. right; right. exists n. repeat split; try lia.
-      unfold unl_tok, span_new_with_len. apply tiling_single. lia.
-    - eexists; split; [reflexivity|]. split; [reflexivity|left; split; reflexivity].
+          exact (tiling_end_unique _ _ _ _ Ht Hfull). }
+        right; right. exists cl. split; [exact Ht|]. split; [eapply last_end_tiling; [exact Ht|lia]|].
+        split; [lia|]. split; [unfold cl in *; lia|rewrite Ev; reflexivity].
+    - destruct (Leaf eq_refl) as (L1 & L2 & L3). apply andb_true_iff in HK as [_ HK]. apply andb_true_iff in HK as [HK1 HK2].
+      apply Nat.leb_le in HK1, HK2.
+      eexists; split; [reflexivity|]. unfold unl_tok. apply Single; [reflexivity|lia|lia].
+    - eexists; split; [reflexivity|]. left; split; reflexivity.
   Qed.
 
   Theorem mk_loop_inv : forall evs tb tc cu lastend stack,
     is_boundary bs tb = true -> tc = char_index bs tb ->
-    md_contractb ilt bs tb cu lastend stack evs = true ->
+    md_contractb bs evs = true ->
     exists out, mk_loop u ilt src bs evs tb tc cu lastend stack = Ok out /\
       InText (length src) out /\ OrderedFrom (cu_top cu lastend) out /\ ZeroWidthOnlyBreaks out.
   Proof.
     induction evs as [|e rest IH]; intros tb tc cu lastend stack Hb Hc HK.
     - cbn [mk_loop]. eexists; split; [reflexivity|]. split; [constructor|]. split; constructor.
-    - cbn [md_contractb] in HK. cbv zeta in HK. apply andb_true_iff in HK as [HK1 HK].
-      cbn [mk_loop].
-      destruct (md_advance_ok bs tb tc (me_rs e) Hb HK1) as [[tb' tc'] E]. rewrite E. cbn [bind]. cbv zeta.
+    - unfold md_contractb in HK. cbn [forallb] in HK. apply andb_true_iff in HK as [HKe HKrest].
+      assert (HK1 : is_boundary bs (me_rs e) = true).
+      { unfold ev_ok in HKe. apply andb_true_iff in HKe as [H _]. exact H. }
+      cbn [mk_loop]. cbv zeta.
+      destruct (md_advance_ok bs tb tc (me_rs e) Hb HK1) as [[tb' tc'] E]. rewrite E. cbn [bind].
       destruct (md_advance_spec _ _ _ _ _ _ Hc Hb E) as (H1 & H2 & H3).
-      rewrite <- H1, <- H2 in HK.
       set (cu' := cu_top cu lastend) in *.
-      destruct (is_leaf (me_ev e) && (tc' <? cu')) eqn:Hskip.
-      + destruct (IH tb' tc' cu' lastend stack H3 H2 HK) as (r & Hr & R1 & R2 & R3).
+      destruct (is_leaf (me_ev e) && ((me_rs e <? tb) || (tc' <? cu'))) eqn:Hskip.
+      + destruct (IH tb' tc' cu' lastend stack H3 H2 HKrest) as (r & Hr & R1 & R2 & R3).
         exists r. split; [exact Hr|]. split; [exact R1|]. split; [|exact R3].
         unfold cu' in R2. rewrite cu_top_idem in R2. exact R2.
-      + apply andb_true_iff in HK as [HK HKrest]. apply andb_true_iff in HK as [HKT HKC].
-        destruct (step_spec stack tb' tc' e lastend H3 H2 HK1 HKT HKC) as (out & Ho & Hle & Hcases).
-        rewrite Ho. cbn [bind]. rewrite Hle.
-        destruct (IH tb' tc' cu' _ _ H3 H2 HKrest) as (r & Hr & R1 & R2 & R3).
+      + pose proof (boundary_char_le tb' H3) as Htc. rewrite <- H2 in Htc.
+        (* a non-leaf event, or a leaf that is neither behind the cursor nor before covered_until *)
+        assert (Hpos : is_leaf (me_ev e) = true -> tc' = char_index bs (me_rs e) /\ cu' <= tc').
+        { intros Hl. rewrite Hl in Hskip. cbn [andb] in Hskip. apply orb_false_iff in Hskip as [Hs1 Hs2].
+          apply Nat.ltb_ge in Hs1, Hs2. split; [|exact Hs2]. rewrite H2, H1. f_equal. lia. }
+        assert (Hstep : exists out, mk_step u ilt src bs stack tc' e = Ok out /\ StepSpec tc' e lastend out).
+        { destruct (is_leaf (me_ev e)) eqn:Hl.
+          - destruct (Hpos eq_refl) as [Hp _]. apply step_spec; assumption.
+          - (* non-leaf arms do not read the range *)
+            unfold mk_step, StepSpec. destruct (me_ev e) as [t| | | | |n|n|n|]; try discriminate Hl.
+            + destruct t; (eexists; split; [reflexivity|]); try (left; split; reflexivity).
+              right; left. eexists. split; [reflexivity|]. split; [|exact I].
+              unfold last_end, tend, span_new_with_len; cbn. f_equal; lia.
+            + eexists; split; [reflexivity|]. right; left. eexists. split; [reflexivity|]. split; [|exact I].
+              unfold last_end, tend, span_new_with_len; cbn. f_equal; lia.
+            + eexists; split; [reflexivity|]. left; split; reflexivity.
+            + eexists; split; [reflexivity|]. left; split; reflexivity. }
+        destruct Hstep as (out & Ho & Hcases). rewrite Ho. cbn [bind].
+        destruct (IH tb' tc' cu' (last_end out lastend) (mk_stack stack (me_ev e)) H3 H2 HKrest) as (r & Hr & R1 & R2 & R3).
         rewrite Hr. cbn [bind]. eexists; split; [reflexivity|].
-        pose proof (boundary_char_le tb' H3) as Htc. rewrite <- H2 in Htc.
-        destruct Hcases as [[-> Hex]|[(k & -> & Hex & Hk)|(n & Ht & Hext & Hn & Hfit & Hlf)]]; cbn [app].
-        * rewrite Hex in R2. fold cu' in R2. unfold cu' in R2. rewrite cu_top_idem in R2. auto.
+        destruct Hcases as [[-> Hle]|[(k & -> & Hle & Hk)|(n & Ht & Hle & Hn & Hfit & Hlf)]]; cbn [app]; rewrite Hle in R2.
+        * unfold cu' in R2. rewrite cu_top_idem in R2. auto.
         * split; [|split].
           -- constructor; [|exact R1]. unfold span_new_with_len, tstart, tend; cbn. lia.
           -- apply OF_zero; [unfold covers_chars, span_new_with_len, tstart, tend; cbn; lia|].
-             eapply ordered_from_weaken; [|exact R2]. rewrite Hex. unfold cu_top. lia.
+             eapply ordered_from_weaken; [|exact R2]. unfold cu_top. lia.
           -- constructor; [|exact R3]. intros _. cbn [tkind_of]. exact Hk.
-        * rewrite Hlf in Hskip. cbn [andb] in Hskip. apply Nat.ltb_ge in Hskip.
-          rewrite Hext in R2. split; [|split].
+        * destruct (Hpos Hlf) as [_ Hcu]. split; [|split].
           -- apply Forall_app. split; [|exact R1]. eapply tiling_intext; [exact Ht|lia].
-          -- eapply tiling_then_ordered; [exact Ht|exact Hskip| |exact R2]. unfold cu_top. lia.
+          -- eapply tiling_then_ordered; [exact Ht|exact Hcu| |exact R2]. unfold cu_top. lia.
           -- apply Forall_app. split; [|exact R3]. eapply tiling_no_zero_width. exact Ht.
   Qed.
 End Loop.
@@ -276,7 +314,7 @@ Proof.
 Qed.
 
 Theorem markdown_glue u ilt src evs :
-  Forall valid_char src -> md_contract ilt src evs ->
+  Forall valid_char src -> md_contract src evs ->
   exists raw ts,
     markdown_raw u ilt src evs = Ok raw /\ markdown_parse u ilt src evs = Ok ts /\ Sub ts raw /\
     TokInv (length src) raw /\ TokInv (length src) ts /\
@@ -303,7 +341,7 @@ Definition md_ex_evs : list mevent :=
   [mev_ (MStart TParagraph) 0 15; mev_ (MText 2) 0 3; mev_ (MStart TLink) 3 9; mev_ (MText 1) 7 8; mev_ MEndOther 3 9;
    mev_ (MText 1) 10 11; mev_ (MCodeLike 1) 11 14; mev_ MEndBreaking 0 15].
 Lemma markdown_glue_example :
-  Forall valid_char md_ex_src /\ md_contract false md_ex_src md_ex_evs /\
+  Forall valid_char md_ex_src /\ md_contract md_ex_src md_ex_evs /\
   markdown_parse uni_u_umlaut false md_ex_src md_ex_evs
   = Ok [mktok (mkspan 0 1) KWord; mktok (mkspan 1 2) (KSpace 1); mktok (mkspan 6 7) KWord;
         mktok (mkspan 9 10) (KSpace 1); mktok (mkspan 10 11) KUnlintable; mktok (mkspan 10 10) KParagraphBreak].
@@ -315,8 +353,8 @@ Proof.
 Qed.
 
 (* FC02b (repaired by 8b26ba4): "[[a|]] b" — pulldown-cmark 0.13 reports the text after a wikilink with an empty
-   display text TWICE (both times with the source range 6..8).  The stream now MEETS the contract (order of the leaf
-   events is no longer asked), the covered_until guard skips the repeat, the tokens are ordered and disjoint *)
+   display text TWICE (both times with the source range 6..8).  The stream MEETS the contract (nothing is asked about the
+   order of the events), the covered_until guard skips the repeat, the tokens are ordered and disjoint *)
 Definition md_dup_src : text := [91; 91; 97; 124; 93; 93; 32; 98]%N.
 Definition md_dup_evs : list mevent :=
   [mev_ (MStart TParagraph) 0 8; mev_ (MStart TLink) 0 5; mev_ (MText 1) 4 5; mev_ (MText 1) 5 6; mev_ (MText 2) 6 8;
@@ -325,7 +363,7 @@ Definition md_dup_out : list token :=
   [mktok (mkspan 4 5) (KPunct PCloseSquare); mktok (mkspan 5 6) (KPunct PCloseSquare);
    mktok (mkspan 6 7) (KSpace 1); mktok (mkspan 7 8) KWord].
 Theorem markdown_repeated_text_skipped :
-  md_contract false md_dup_src md_dup_evs /\
+  md_contract md_dup_src md_dup_evs /\
   markdown_parse ascii_uni false md_dup_src md_dup_evs = Ok md_dup_out /\
   Tiling 4 8 md_dup_out.
 Proof.
@@ -338,7 +376,7 @@ Definition md_math_src : text := [36; 36; 36; 36]%N.
 Definition md_math_evs : list mevent :=
   [mev_ (MStart TParagraph) 0 4; mev_ (MCodeLike 0) 0 4; mev_ MEndBreaking 0 4].
 Theorem markdown_empty_math_no_token :
-  md_contract false md_math_src md_math_evs /\
+  md_contract md_math_src md_math_evs /\
   markdown_parse ascii_uni false md_math_src md_math_evs = Ok [].
 Proof. split; vm_compute; reflexivity. Qed.
 
@@ -379,21 +417,46 @@ Proof.
   - intros H. inversion H as [|t l H1 H2]; subst. apply H1. reflexivity.
 Qed.
 
-(* FC02c (open; the residue of FC02b): "x ![[a|]] Old _a_ b" — the repeat happens inside an IMAGE, whose texts push
-   no token (only the emphasised `a` does, 15..16), so covered_until stays at 16 while the cursor reaches byte 17; the
-   repeated Text " Old " (range 9..14, BEHIND the cursor) is not skipped by the guard, is placed at the cursor with its
-   5 characters, and `&source[17..22]` of a 19-character source panics.  The stream breaks clause K3 (the range of a
-   token-bearing event must reach from the cursor on) *)
+(* FC02c (repaired by b736ef8; the residue of FC02b): "x ![[a|]] Old _a_ b" — the repeat happens inside an IMAGE, whose
+   texts push no token (only the emphasised `a` does, 15..16), so covered_until stays at 16 while the cursor reaches
+   byte 17; the repeated Text " Old " (range 9..14) lies BEHIND the cursor and is skipped by the behind_cursor test;
+   the stream meets the contract and the tokens are a gapped tiling *)
 Definition md_back_src : text := [120; 32; 33; 91; 91; 97; 124; 93; 93; 32; 79; 108; 100; 32; 95; 97; 95; 32; 98]%N.
 Definition md_back_evs : list mevent :=
   [mev_ (MStart TParagraph) 0 19; mev_ (MText 2) 0 2; mev_ (MStart TOtherTag) 2 8; mev_ (MText 1) 7 8; mev_ (MText 1) 8 9;
    mev_ (MText 5) 9 14; mev_ (MStart TEmphasis) 14 17; mev_ (MText 1) 15 16; mev_ MEndOther 14 17; mev_ (MText 2) 17 19;
    mev_ MEndOther 2 8; mev_ (MText 5) 9 14; mev_ (MStart TEmphasis) 14 17; mev_ (MText 1) 15 16; mev_ MEndOther 14 17;
    mev_ (MText 2) 17 19; mev_ MEndBreaking 0 19].
-Theorem markdown_backward_event_witness :
-  md_contractb false (encode md_back_src) 0 0 None [] md_back_evs = false /\
-  markdown_parse ascii_uni false md_back_src md_back_evs = Panic PIndex.
-Proof. split; vm_compute; reflexivity. Qed.
+Definition md_back_out : list token :=
+  [mktok (mkspan 0 1) KWord; mktok (mkspan 1 2) (KSpace 1); mktok (mkspan 15 16) KWord;
+   mktok (mkspan 17 18) (KSpace 1); mktok (mkspan 18 19) KWord].
+Theorem markdown_backward_event_skipped :
+  md_contract md_back_src md_back_evs /\
+  markdown_parse ascii_uni false md_back_src md_back_evs = Ok md_back_out /\
+  Gapped 0 19 md_back_out.
+Proof.
+  split; [vm_compute; reflexivity|]. split; [vm_compute; reflexivity|].
+  unfold md_back_out. repeat (constructor; cbn; try lia).
+Qed.
+
+(* HISTORY — the loop of 8b26ba4 (covered_until guard only, no behind_cursor test): the repeated " Old " is placed at
+   the cursor and `&source[17..22]` of a 19-character source panics *)
+Fixpoint mk_loop_8b26ba4 (u : uni) (ilt : bool) (src : text) (bs : list N) (evs : list mevent) (tb tc cu : nat)
+         (lastend : option nat) (stack : list md_tag) : res (list token) :=
+  match evs with
+  | [] => Ok []
+  | e :: rest =>
+      do '(tb, tc) <- md_advance bs tb tc (me_rs e);
+      let cu := cu_top cu lastend in
+      if is_leaf (me_ev e) && (tc <? cu) then mk_loop_8b26ba4 u ilt src bs rest tb tc cu lastend stack
+      else
+        do out <- mk_step u ilt src bs stack tc e;
+        do r <- mk_loop_8b26ba4 u ilt src bs rest tb tc cu (last_end out lastend) (mk_stack stack (me_ev e));
+        Ok (out ++ r)
+  end.
+Lemma markdown_8b26ba4_witness :
+  mk_loop_8b26ba4 ascii_uni false md_back_src (encode md_back_src) md_back_evs 0 0 0 None [] = Panic PIndex.
+Proof. vm_compute. reflexivity. Qed.
 
 (* ---------- the tables the translator reads from markdown.rs (Tables_lexer.v: md_break_arms, md_breaking_ends,
    md_prose_tags) against the model ---------- *)
@@ -431,4 +494,4 @@ Theorem md_breaking_ends_pinned :
 Proof. reflexivity. Qed.
 
 Print Assumptions markdown_glue.
-Print Assumptions markdown_backward_event_witness.
+Print Assumptions markdown_backward_event_skipped.
